@@ -104,6 +104,9 @@ class ConcreteEngine:
 
     def check(self, name, cond, sig=None, info=None, fatal=True):
         self.stats.obligations += 1
+        import os
+        if os.environ.get('VERIF_TWIN') == name:
+            cond = False
         if cond:
             return True
         self.failures.append({'check': name, 'sig': [name] + list(sig or ()), 'info': info})
